@@ -1,7 +1,8 @@
 from common import ENUMX_ASSUME
 
 CHECK = {'pkgs': ['dkg'],
- 'libs': ['enumx'],
+ 'libs': ['enumx', 'schedx', 'vsync'],
+ 'vsync': ['dkg/frostp2p.go'],
  'run': 'TestVerifC11',
  'level': 'exploration',
  'engine': 'enumx',
